@@ -990,7 +990,7 @@ class Check:
                     msg = ('expected %r check to validate target'
                            % getattr(validator, '__name__', None) or ('#%s' % i))
                     if self.default is not RAISE:
-                        return self.default
+                        return arg_val(target, self.default, scope)
                     if type(e) is not self._ValidationError:
                         msg += ' (got exception: %r)' % e
                     errs.append(msg)
